@@ -4,11 +4,13 @@ import AcraModel.Envelope.BlockLemmas
 import AcraModel.Envelope.ProtectLemmas
 import AcraModel.Envelope.ScanLemmas
 import AcraModel.Envelope.ExampleOps
+import AcraModel.Envelope.TranslatorLemmas
 import AcraModel.Crypto.Box
 /-!
 # C01 — protect-then-reveal returns the original bytes for the owning client
 
-Property theorems only. Models: `AcraModel/Envelope/{AcraBlock,AcraStruct,Container,Detector}.lean`.
+Property theorems only. Models: `AcraModel/Envelope/{AcraBlock,AcraStruct,Container,Detector,Translator}.lean`
+(the AcraTranslator operations reuse `Envelope/Poison.lean` and `Searchable/Index.lean`).
 -/
 namespace AcraModel.Props.C01
 open AcraModel AcraModel.Envelope Generated
@@ -756,6 +758,240 @@ theorem protect_empty_err (c : CryptoOps) (hs : SealLaws c) (kv : KeyView) (k : 
       simp only [henc]
       rfl
 
+/-! ## the AcraTranslator operations (`cmd/acra-translator/common/service.go`)
+
+`Translator.{encrypt, decrypt, encryptSym, decryptSym, encryptSearchable, decryptSearchable,
+encryptSymSearchable, decryptSymSearchable}` (in `Envelope/Translator.lean`) model the eight service
+methods as compositions of `protect`, `decryptWithHandler` + poison scan, and the search-hash
+functions. A decrypt returns `(answer, number of poison alarms)`. `stW` / `stR` are the key stores at
+write and at read time (the reader's key lists may be longer: rotations). -/
+
+section TranslatorOps
+open AcraModel.Envelope.Translator AcraModel.Searchable
+
+/-- What the model takes from `service.go` (regenerated on every run): the eight operations exist; each
+tests the client id in the form the model uses (`len(clientID) == 0` for `Encrypt`/`Decrypt`,
+`clientID == nil` for the other six), refuses an additional context, and does both before touching the
+key store or a handler; each asks the registry for the envelope handler of the kind the model uses
+(AcraStruct for `Encrypt`/`Decrypt`/`…Searchable`, AcraBlock for the `…Sym…` operations) and calls
+`EncryptWithHandler` resp. `DecryptWithHandler` exactly once; the searchable decrypts prepend a non-nil
+`hash` argument and verify the decrypted data against the hash with the client's HMAC key; the
+searchable encrypts return `GenerateHMAC(key of clientID, data)`. -/
+theorem fact_translator_ops :
+    (TranslatorOps.ops.map (·.1)).length = 8 ∧
+    (∀ row ∈ TranslatorOps.ops, rowSpec row ≠ none ∧ rowSpec row = opSpec row.1) ∧
+    TranslatorOps.ops.map (fun row => (row.1, row.2.2.2.2)) =
+      [("Decrypt", "DecryptWithHandler"), ("Encrypt", "EncryptWithHandler"),
+       ("EncryptSearchable", "EncryptWithHandler"), ("DecryptSearchable", "DecryptWithHandler"),
+       ("EncryptSymSearchable", "EncryptWithHandler"), ("DecryptSymSearchable", "DecryptWithHandler"),
+       ("EncryptSym", "EncryptWithHandler"), ("DecryptSym", "DecryptWithHandler")] ∧
+    TranslatorOps.searchableDecrypts = [("DecryptSearchable", true, true), ("DecryptSymSearchable", true, true)] ∧
+    TranslatorOps.searchableEncrypts = [("EncryptSearchable", true), ("EncryptSymSearchable", true)] := by decide
+
+/-- Every one of the eight operations refuses a request without client id and a request that carries
+an additional context – with an error, before touching any key (no alarm either). -/
+theorem translator_rejects_bad_request (c : CryptoOps) (st : Store) (data rnd : Bytes) (hash clientID addCtx : Option Bytes)
+    (hbad : clientID = none ∨ addCtx ≠ none) :
+    Translator.encrypt c st data clientID addCtx rnd = .err ∧
+    Translator.decrypt c st data clientID addCtx = (.err, 0) ∧
+    encryptSym c st data clientID addCtx rnd = .err ∧
+    decryptSym c st data clientID addCtx = (.err, 0) ∧
+    encryptSearchable c st data clientID addCtx rnd = .err ∧
+    decryptSearchable c st data hash clientID addCtx = (.err, 0) ∧
+    encryptSymSearchable c st data clientID addCtx rnd = .err ∧
+    decryptSymSearchable c st data hash clientID addCtx = (.err, 0) := by
+  have h : ∀ byLen, checkRequest byLen clientID addCtx = .err := fun byLen =>
+    checkRequest_bad byLen clientID addCtx (by rcases hbad with h | h; exact Or.inl h; exact Or.inr (Or.inl h))
+  exact ⟨encryptWith_bad _ _ c st data rnd _ _ (h _), decryptWith_bad _ _ c st data _ _ (h _),
+    encryptWith_bad _ _ c st data rnd _ _ (h _), decryptWith_bad _ _ c st data _ _ (h _),
+    encryptSearchableWith_bad _ c st data rnd _ _ (h _), decryptSearchableWith_bad _ c st data hash _ _ (h _),
+    encryptSearchableWith_bad _ c st data rnd _ _ (h _), decryptSearchableWith_bad _ c st data hash _ _ (h _)⟩
+
+/-- `Encrypt` and `Decrypt` test `len(clientID) == 0`: they also refuse the empty (non-nil) client id.
+(The other six test `clientID == nil` only and go on with the empty id – they then work with whatever
+keys the key store has for the empty id.) -/
+theorem translator_rejects_empty_id (c : CryptoOps) (st : Store) (data rnd : Bytes) (addCtx : Option Bytes) :
+    Translator.encrypt c st data (some []) addCtx rnd = .err ∧ Translator.decrypt c st data (some []) addCtx = (.err, 0) :=
+  ⟨encryptWith_bad _ _ c st data rnd _ _ (checkRequest_empty_id addCtx),
+   decryptWith_bad _ _ c st data _ _ (checkRequest_empty_id addCtx)⟩
+
+/-- **Translator round trip**, both Encrypt/Decrypt pairs at once (`encryptOf k` / `decryptOf k` are
+`Encrypt`/`Decrypt` for `k = .struct` and `EncryptSym`/`DecryptSym` for `k = .block`): what the
+encrypt operation returned for an unprotected value `m` is decrypted by the matching decrypt operation
+– for the same client id, under the round-trip hypotheses of `reveal_protect` between the writer's and
+the reader's keys of that id – to exactly `m`, and no poison alarm is raised. -/
+theorem translator_roundtrip (c : CryptoOps) (k : Kind) (stW stR : Store) (id m rnd p : Bytes)
+    (hid : k = .struct → id ≠ [])
+    (h : RoundTripHyps c k (stW.keys id) (stR.keys id) m rnd p)
+    (hnm : matchKind k m = false) (hnr : registryMatch m = false)
+    (hp : encryptOf k c stW m (some id) none rnd = .ok p) :
+    decryptOf k c stR p (some id) none = (.ok m, 0) := by
+  rw [encryptOf_ok k c stW id m rnd hid] at hp
+  rw [decryptOf_ok k c stR id p hid]
+  obtain ⟨e, rfl, he, hlen, hmatch, hdec⟩ := protect_facts c k _ _ m rnd p h hnm hnr hp
+  apply translatorDecrypt_of_ok
+  have := decryptWithHandler_ser c (stR.keys id) k e [] he (by omega) hmatch
+  rw [List.append_nil] at this
+  rw [this, hdec]
+
+/-- `Encrypt` then `Decrypt` (AcraStruct) -/
+theorem translator_roundtrip_struct (c : CryptoOps) (stW stR : Store) (id m rnd p : Bytes) (hid : id ≠ [])
+    (h : RoundTripHyps c .struct (stW.keys id) (stR.keys id) m rnd p)
+    (hnm : matchKind .struct m = false) (hnr : registryMatch m = false)
+    (hp : Translator.encrypt c stW m (some id) none rnd = .ok p) :
+    Translator.decrypt c stR p (some id) none = (.ok m, 0) :=
+  translator_roundtrip c .struct stW stR id m rnd p (fun _ => hid) h hnm hnr hp
+
+/-- `EncryptSym` then `DecryptSym` (AcraBlock); the empty, non-nil client id is allowed here -/
+theorem translator_roundtrip_block (c : CryptoOps) (stW stR : Store) (id m rnd p : Bytes)
+    (h : RoundTripHyps c .block (stW.keys id) (stR.keys id) m rnd p)
+    (hnm : matchKind .block m = false) (hnr : registryMatch m = false)
+    (hp : encryptSym c stW m (some id) none rnd = .ok p) :
+    decryptSym c stR p (some id) none = (.ok m, 0) :=
+  translator_roundtrip c .block stW stR id m rnd p (fun h => by cases h) h hnm hnr hp
+
+/-- **Searchable translator round trip**, both pairs (`EncryptSearchable`/`DecryptSearchable` for
+`.struct`, `EncryptSymSearchable`/`DecryptSymSearchable` for `.block`): the response carries the
+envelope `p` and the hash `h = GenerateHMAC(key, m)`; the decrypt operation returns exactly `m` (no
+alarm) whether the hash is passed as the separate argument or concatenated in front of the envelope.
+Writer and reader use the same HMAC key `hk` of the client; `HashLen`: the MAC has 32 bytes (the code
+cuts the hash off by length). -/
+theorem translator_searchable_roundtrip (c : CryptoOps) (hl : HashLen c) (k : Kind) (stW stR : Store)
+    (id hk m rnd p h : Bytes)
+    (hkW : stW.hmac id = some hk) (hkR : stR.hmac id = some hk)
+    (hyp : RoundTripHyps c k (stW.keys id) (stR.keys id) m rnd p)
+    (hnm : matchKind k m = false) (hnr : registryMatch m = false)
+    (hp : encryptSearchableWith k c stW m (some id) none rnd = .ok (p, h)) :
+    h = generateHMAC c hk m ∧
+    decryptSearchableWith k c stR p (some h) (some id) none = (.ok m, 0) ∧
+    decryptSearchableWith k c stR (h ++ p) none (some id) none = (.ok m, 0) := by
+  rw [encryptSearchableWith_ok, hkW] at hp
+  unfold Searchable.translatorEncrypt at hp
+  simp only at hp
+  cases hpp : protect c (stW.keys id) k m rnd with
+  | err => rw [hpp] at hp; cases hp
+  | panic => rw [hpp] at hp; cases hp
+  | ok p' =>
+    rw [hpp] at hp
+    simp only [Out.ok.injEq, Prod.mk.injEq] at hp
+    obtain ⟨rfl, rfl⟩ := hp
+    obtain ⟨e, rfl, he, hlen, hmatch, hdec⟩ := protect_facts c k _ _ m rnd _ hyp hnm hnr hpp
+    have hd : decryptWithHandler c (stR.keys id) k (serBytes e k.id) = .ok m := by
+      have := decryptWithHandler_ser c (stR.keys id) k e [] he (by omega) hmatch
+      rw [List.append_nil] at this
+      rw [this, hdec]
+    have hx := extractHashAndData_stored c hl hk m (serBytes e k.id)
+    have heq : isEqual c (stR.hmac id) (generateHMAC c hk m) m = true := by rw [hkR]; exact isEqual_genuine c hk m
+    exact ⟨rfl, decryptSearchableWith_ok k c stR id _ _ _ m (some _) hx hd heq,
+      decryptSearchableWith_ok k c stR id _ _ _ m none hx hd heq⟩
+
+/-- All protecting entry points compute the same thing: on a value that is not already protected
+(`¬ matchKind`, `¬ registryMatch` – otherwise the handlers pass it through while the bare library call
+would wrap it), library create + serialize, `EncryptWithHandler`, the SQL proxies' write chain and the
+translator's encrypt operations all return `protect c (keys of id) k m rnd` – given the same random
+stream, the very same bytes. -/
+theorem producers_agree (c : CryptoOps) (P : Producer) (k : Kind) (st : Store) (id m rnd : Bytes) (hid : id ≠ [])
+    (hhk : P = .translatorSearchable → ∃ hk, st.hmac id = some hk)
+    (hnm : matchKind k m = false) (hnr : registryMatch m = false) :
+    produce P c st id k m rnd = protect c (st.keys id) k m rnd := by
+  cases P with
+  | library => exact libraryProtect_eq_protect c _ k m rnd hnm hnr
+  | handler => rfl
+  | sqlWrite => rfl
+  | translator => exact encryptOf_ok k c st id m rnd (fun _ => hid)
+  | translatorSearchable =>
+    obtain ⟨hk, hhk⟩ := hhk rfl
+    show (encryptSearchableWith k c st m (some id) none rnd).bind _ = _
+    rw [encryptSearchableWith_ok, hhk]
+    unfold Searchable.translatorEncrypt
+    cases protect c (st.keys id) k m rnd <;> rfl
+
+/-- **Entry points agree** (table-driven over `Producer` × `Consumer`, `Translator.Producer.all` /
+`Translator.Consumer.all` list them): a value produced for client `id` by ANY protecting entry point –
+library create + serialize, the registry handler, the SQL proxies' write chain, the translator's
+`Encrypt`/`EncryptSym`/`EncryptSearchable`/`EncryptSymSearchable` – is revealed to exactly the original
+plaintext by EVERY revealing entry point: library decrypt of the inner envelope, `reveal`
+(`RegistryHandler.Process`), the translator's `Decrypt`/`DecryptSym` and `DecryptSearchable`/
+`DecryptSymSearchable` (hash `GenerateHMAC(hk, m)` passed separately or concatenated), and the
+transparent column processor with the decrypt callback, with and without the compatibility wrapper.
+`C.accepts k`: the translator's decrypt operations work with the handler of one envelope kind, so they
+are consumers of values of that kind only. Hypotheses: those of `reveal_protect` between the writer's
+and the reader's keys of `id`, the reader's HMAC key, 32-byte MACs, a non-empty client id. -/
+theorem entry_points_agree (c : CryptoOps) (hl : HashLen c) (P : Producer) (C : Consumer) (k : Kind)
+    (stW stR : Store) (id hk m rnd p : Bytes) (hid : id ≠ [])
+    (hkW : P = .translatorSearchable → ∃ hk', stW.hmac id = some hk') (hkR : stR.hmac id = some hk)
+    (hyp : RoundTripHyps c k (stW.keys id) (stR.keys id) m rnd p)
+    (hnm : matchKind k m = false) (hnr : registryMatch m = false)
+    (hacc : C.accepts k = true)
+    (hp : produce P c stW id k m rnd = .ok p) :
+    consume C c stR id p (generateHMAC c hk m) = .ok m := by
+  rw [producers_agree c P k stW id m rnd hid hkW hnm hnr] at hp
+  obtain ⟨e, rfl, he, hlen, hmatch, hdec⟩ := protect_facts c k _ _ m rnd p hyp hnm hnr hp
+  have hd : decryptWithHandler c (stR.keys id) k (serBytes e k.id) = .ok m := by
+    have := decryptWithHandler_ser c (stR.keys id) k e [] he (by omega) hmatch
+    rw [List.append_nil] at this
+    rw [this, hdec]
+  have hne : m ≠ serBytes e k.id ++ [] := by
+    intro h
+    have := c01_registryMatch_ser k e [] he (by omega) hmatch
+    rw [← h, hnr] at this
+    cases this
+  have hcol : ∀ front : List Callback, (∀ cb ∈ front, ∀ x, cb x = .same) →
+      onColumn (front ++ [decryptCallback c (stR.keys id)]) (serBytes e k.id) = .ok m true := by
+    intro front hfront
+    have := (onColumn_reveal_embedded c (stR.keys id) k e [] [] m front [] he hlen hmatch hdec hne
+      (fun cb hcb => Or.inl (hfront cb hcb _)) (by intro i hi; cases hi)).2
+    simpa [c01_scan_nil, ScanOut.prepend] using this
+  have hx := extractHashAndData_stored c hl hk m (serBytes e k.id)
+  have heq : isEqual c (stR.hmac id) (generateHMAC c hk m) m = true := by rw [hkR]; exact isEqual_genuine c hk m
+  cases C with
+  | library =>
+    have := libraryReveal_ser c (stR.keys id) k e [] m he (by omega) hdec
+    rw [List.append_nil] at this
+    exact this
+  | reveal => exact reveal_protect c k _ _ m rnd _ hyp hnm hnr hp
+  | translator k' =>
+    have hk' : k' = k := by simpa [Consumer.accepts] using hacc
+    subst hk'
+    show (decryptOf k' c stR _ (some id) none).1 = _
+    rw [decryptOf_ok k' c stR id _ (fun _ => hid), translatorDecrypt_of_ok c _ _ k' _ m hd]
+  | translatorSearchableSep k' =>
+    have hk' : k' = k := by simpa [Consumer.accepts] using hacc
+    subst hk'
+    show (decryptSearchableWith k' c stR _ (some _) (some id) none).1 = _
+    rw [decryptSearchableWith_ok k' c stR id _ _ _ m (some _) hx hd heq]
+  | translatorSearchableCat k' =>
+    have hk' : k' = k := by simpa [Consumer.accepts] using hacc
+    subst hk'
+    show (decryptSearchableWith k' c stR _ none (some id) none).1 = _
+    rw [decryptSearchableWith_ok k' c stR id _ _ _ m none hx hd heq]
+  | onColumn =>
+    show scanBytes (onColumn [decryptCallback c (stR.keys id)] _) = _
+    have := hcol [] (by simp)
+    rw [List.nil_append] at this
+    rw [this]; rfl
+  | onColumnCompat =>
+    show scanBytes (onColumnCompat [decryptCallback c (stR.keys id)] _) = _
+    have := hcol [fun _ => Cb.same] (by simp)
+    unfold onColumnCompat
+    simp only [List.singleton_append] at this
+    rw [this]
+    rfl
+
+/-- the table has no gaps: every producer and every consumer is listed, and for each envelope kind
+every consumer that is not a translator operation of the other kind accepts it -/
+theorem entry_point_table_complete :
+    (∀ P : Producer, P ∈ Producer.all) ∧ (∀ C : Consumer, C ∈ Consumer.all) ∧
+    (∀ k : Kind, (Consumer.all.filter (fun C => C.accepts k)).length = 7) := by
+  refine ⟨fun P => by cases P <;> decide, fun C => ?_, fun k => by cases k <;> decide⟩
+  cases C with
+  | translator k => cases k <;> decide
+  | translatorSearchableSep k => cases k <;> decide
+  | translatorSearchableCat k => cases k <;> decide
+  | _ => decide
+
+end TranslatorOps
+
 /-! ## non-vacuity: every hypothesis bundle above is satisfied by a concrete instance -/
 
 
@@ -933,6 +1169,101 @@ example :
   · exact onColumn_protect_struct_in_text shimOps shim_sealLaws shim_sealLen shim_msgLaws shim_msgLen shim_keygenLaws
       kvW kvR priv [1,2,3] _ p [97,98] [99,100] [] [other] hpriv rfl rfl (by simp) hnm hnr hp (by decide) (by decide)
 
+
+/-- 8: the translator theorems and the entry-point table are applicable (AcraBlock kind, stand-in
+instance with 32-byte hashes; written with key `[1,2,3]`, read with the rotated key list): EVERY
+producer yields the value `p`, and EVERY consumer that accepts AcraBlocks reveals `[9,9]` from it;
+`EncryptSym`/`DecryptSym` and `EncryptSymSearchable`/`DecryptSymSearchable` round-trip for client `c` -/
+example :
+    let kvW : KeyView := ⟨none, none, some [1,2,3], none⟩
+    let kvR : KeyView := ⟨none, none, some [4,5], some ([[4,5]] ++ [1,2,3] :: [[1,2,9]])⟩
+    let cfg : PoisonCfg := ⟨false, false, ⟨none, none, none, none⟩⟩
+    let stW : Translator.Store := ⟨fun _ => kvW, fun _ => some [7], cfg⟩
+    let stR : Translator.Store := ⟨fun _ => kvR, fun _ => some [7], cfg⟩
+    ∃ p, Translator.encryptSym toyOps stW [9,9] (some [99]) none (List.replicate 56 5) = .ok p ∧
+      Translator.decryptSym toyOps stR p (some [99]) none = (.ok [9,9], 0) ∧
+      Translator.encryptSymSearchable toyOps stW [9,9] (some [99]) none (List.replicate 56 5) =
+        .ok (p, Searchable.generateHMAC toyOps [7] [9,9]) ∧
+      Translator.decryptSymSearchable toyOps stR p (some (Searchable.generateHMAC toyOps [7] [9,9])) (some [99]) none = (.ok [9,9], 0) ∧
+      Translator.decryptSymSearchable toyOps stR (Searchable.generateHMAC toyOps [7] [9,9] ++ p) none (some [99]) none = (.ok [9,9], 0) ∧
+      ∀ (P : Translator.Producer) (C : Translator.Consumer), C.accepts .block = true →
+        Translator.produce P toyOps stW [99] .block [9,9] (List.replicate 56 5) = .ok p ∧
+        Translator.consume C toyOps stR [99] p (Searchable.generateHMAC toyOps [7] [9,9]) = .ok [9,9] := by
+  intro kvW kvR cfg stW stR
+  have hs := toy_sealLaws
+  have hsl := toy_sealLen
+  have hkid := keyId_length toyOps toy_hashLen [1,2,3] []
+  have hnm : matchKind .block [9,9] = false := by decide
+  have hnr : registryMatch [9,9] = false := by decide
+  obtain ⟨p, hp⟩ := protect_block_total toyOps hs kvW [1,2,3] [9,9] (List.replicate 56 5) rfl (by decide) (by decide)
+    (by decide) (by decide)
+  obtain ⟨hpl, _⟩ := protect_block_length toyOps hs hsl kvW [1,2,3] [9,9] _ p rfl hkid hnm hnr hp
+  have hpl' : p.length = 152 := hpl
+  have hek : ∀ encKey, toyOps.enc [1,2,3] [] ((List.replicate 56 5).take 32) (((List.replicate 56 (5:UInt8)).drop 44).take 12) = some encKey →
+      encKey.length < 65536 := by
+    intro ek h
+    have := hsl.enc_len _ _ _ _ _ h
+    rw [this]; decide
+  have hkpre : ∀ k' ∈ [[4,5]], ∀ encKey, toyOps.enc [1,2,3] [] ((List.replicate 56 5).take 32) (((List.replicate 56 (5:UInt8)).drop 44).take 12) = some encKey →
+      keyId toyOps k' [] = keyId toyOps [1,2,3] [] → toyOps.dec k' [] encKey = none := by
+    intro k' hk' encKey _ hid
+    simp only [List.mem_singleton] at hk'
+    subst hk'
+    exact absurd hid (by decide)
+  have hH : RoundTripHyps toyOps .block (stW.keys [99]) (stR.keys [99]) [9,9] (List.replicate 56 5) p :=
+    ⟨hs, [1,2,3], [[4,5]], [[1,2,9]], hkid, rfl, rfl, hkpre, hek, by rw [hpl']; decide⟩
+  have hall : ∀ P : Translator.Producer, Translator.produce P toyOps stW [99] .block [9,9] (List.replicate 56 5) = .ok p := by
+    intro P
+    rw [producers_agree toyOps P .block stW [99] [9,9] _ (by decide) (fun _ => ⟨[7], rfl⟩) hnm hnr]
+    exact hp
+  have henc : Translator.encryptSym toyOps stW [9,9] (some [99]) none (List.replicate 56 5) = .ok p := hall .translator
+  have hencS : Translator.encryptSymSearchable toyOps stW [9,9] (some [99]) none (List.replicate 56 5) =
+      .ok (p, Searchable.generateHMAC toyOps [7] [9,9]) := by
+    show Translator.encryptSearchableWith .block toyOps stW [9,9] (some [99]) none _ = _
+    rw [Translator.encryptSearchableWith_ok]
+    show Searchable.translatorEncrypt toyOps (some [7]) kvW .block [9,9] _ = _
+    unfold Searchable.translatorEncrypt
+    simp only [hp]
+  obtain ⟨_, hsep, hcat⟩ := translator_searchable_roundtrip toyOps toy_hashLen .block stW stR [99] [7] [9,9] _ p _ rfl rfl hH hnm hnr hencS
+  refine ⟨p, henc, translator_roundtrip_block toyOps stW stR [99] [9,9] _ p hH hnm hnr henc, hencS, hsep, hcat, ?_⟩
+  intro P C hacc
+  exact ⟨hall P, entry_points_agree toyOps toy_hashLen P C .block stW stR [99] [7] [9,9] _ p (by decide) (fun _ => ⟨[7], rfl⟩) rfl hH hnm hnr hacc (hall P)⟩
+
+/-- 9: the same table for the AcraStruct kind on the stand-in instance with 32-byte hashes: `Encrypt`
+round-trips through `Decrypt`, and every consumer that accepts AcraStructs reveals the plaintext of the
+value of every producer -/
+example :
+    let priv := toyOps.privOfSeed (List.replicate 32 1)
+    let other := toyOps.privOfSeed (List.replicate 32 2)
+    let kvW : KeyView := ⟨some (toyOps.pubOf priv), none, none, none⟩
+    let kvR : KeyView := ⟨none, some ([] ++ priv :: [other]), none, none⟩
+    let cfg : PoisonCfg := ⟨false, false, ⟨none, none, none, none⟩⟩
+    let stW : Translator.Store := ⟨fun _ => kvW, fun _ => some [7], cfg⟩
+    let stR : Translator.Store := ⟨fun _ => kvR, fun _ => some [7], cfg⟩
+    ∃ p, Translator.encrypt toyOps stW [1,2,3] (some [99]) none (List.replicate 88 7) = .ok p ∧
+      Translator.decrypt toyOps stR p (some [99]) none = (.ok [1,2,3], 0) ∧
+      ∀ (P : Translator.Producer) (C : Translator.Consumer), C.accepts .struct = true →
+        Translator.produce P toyOps stW [99] .struct [1,2,3] (List.replicate 88 7) = .ok p ∧
+        Translator.consume C toyOps stR [99] p (Searchable.generateHMAC toyOps [7] [1,2,3]) = .ok [1,2,3] := by
+  intro priv other kvW kvR cfg stW stR
+  have hsL : SealLaws toyOps := toy_sealLaws
+  have hmL : MsgLaws toyOps := Shim.msgLaws toyHash
+  have hkL : KeygenLaws toyOps := Shim.keygenLaws toyHash
+  have hpriv : toyOps.validPriv priv = true := hkL.valid_seed _ (by decide)
+  have hnm : matchKind .struct [1,2,3] = false := by decide
+  have hnr : registryMatch [1,2,3] = false := by decide
+  obtain ⟨p, hp⟩ := protect_struct_total toyOps hsL hmL hkL kvW priv [1,2,3]
+    (List.replicate 88 7) hpriv rfl (by decide) (by decide) (by decide)
+  have hH : RoundTripHyps toyOps .struct (stW.keys [99]) (stR.keys [99]) [1,2,3] (List.replicate 88 7) p :=
+    ⟨hsL, toy_sealLen, hmL, Shim.msgLen toyHash, hkL, priv, [], [other], hpriv, rfl, rfl, by simp⟩
+  have hall : ∀ P : Translator.Producer, Translator.produce P toyOps stW [99] .struct [1,2,3] (List.replicate 88 7) = .ok p := by
+    intro P
+    rw [producers_agree toyOps P .struct stW [99] [1,2,3] _ (by decide) (fun _ => ⟨[7], rfl⟩) hnm hnr]
+    exact hp
+  have henc : Translator.encrypt toyOps stW [1,2,3] (some [99]) none (List.replicate 88 7) = .ok p := hall .translator
+  refine ⟨p, henc, translator_roundtrip_struct toyOps stW stR [99] [1,2,3] _ p (by decide) hH hnm hnr henc, ?_⟩
+  intro P C hacc
+  exact ⟨hall P, entry_points_agree toyOps toy_hashLen P C .struct stW stR [99] [7] [1,2,3] _ p (by decide) (fun _ => ⟨[7], rfl⟩) rfl hH hnm hnr hacc (hall P)⟩
 
 /-- 3: container_roundtrip is applicable -/
 example : ∃ p, serialize [1,2,3] idStruct = .ok p ∧ deserialize (p ++ [5]) = .ok ([1,2,3], idStruct) := by
